@@ -444,7 +444,11 @@ def system_phase(chk, pid, modes, n_quick, n_thorough, also=(), directed=()):
                 continue
             n_ff += 1
             tr = r["trace"]
-            if not a["fault_free"]:
+            if not a.get("static_hypotheses"):
+                bad_ff += 1
+                chk.tie_broken("an acyclic scenario does not pass SystemFault.acyclicb && nodes_okb (static hypotheses of c03_complete_when_checked)",
+                               json.dumps({"seed": seed, "mode": mode, "scenario": sc})[:2000])
+            elif not a["fault_free"]:
                 bad_ff += 1
                 chk.tie_broken("a fault-free impl run does not satisfy SystemFault.fault_free (hypothesis of c03_complete_when_fault_free)",
                                json.dumps({"seed": seed, "mode": mode, "event": a["first_fault"],
@@ -454,7 +458,7 @@ def system_phase(chk, pid, modes, n_quick, n_thorough, also=(), directed=()):
                 bad_concl += 1
                 chk.tie_broken("an accepted fault-free trace has missing jobs in its summary: contradicts c03_complete_when_fault_free (encoder error)",
                                json.dumps({"seed": seed, "mode": mode, "scenario": sc, "plan": plan, "schedule": r["choices"]})[:3000])
-        chk.oblige(f"all {n_ff} fault-free acyclic impl traces satisfy SystemFault.fault_free, the hypothesis of the completeness theorems",
+        chk.oblige(f"all {n_ff} fault-free acyclic impl traces satisfy SystemFault.acyclicb, nodes_okb and fault_free - every hypothesis of c03_complete_when_checked, evaluated by coqc",
                    bad_ff == 0 and bad_concl == 0, f"{bad_ff} not fault-free in the model's sense, {bad_concl} contradict the conclusion")
         chk.notes.setdefault("input_distribution", {})["fault_free_traces"] = n_ff
     chk.notes.setdefault("input_distribution", {})["system"] = dist
